@@ -94,12 +94,12 @@ def opsC17 : List String → Option String
     let al := if allowed = "." then [] else (allowed.splitOn ",").map unhex
     let cfg : Policy.Cfg := ⟨al, rej = "1", mr.toNat!, 0, false, 0, []⟩
     let dir : Policy.Dir := ⟨fun _ _ => userIn = "1", fun _ _ => false, fun _ => isRole = "1"⟩
-    some (toString (Policy.rcptImpl cfg dir cnt.toNat! (unhex addr)))
+    some (toString (Policy.rcptWire cfg dir cnt.toNat! (unhex addr)))
   | ["p.folder", dflt, rs, ss] =>
     some (hexOut (Policy.targetFolder ⟨[], false, 0, 0, false, 0, unhex dflt⟩ (optB rs) (optB ss)))
   | ["p.owner", addr, isRole, disabled] =>
     let dir : Policy.Dir := ⟨fun _ _ => false, fun _ _ => disabled = "1", fun _ => isRole = "1"⟩
-    some (match Policy.targetOwner dir (unhex addr) with
+    some (match Policy.ownerWire dir (unhex addr) with
       | none => "none"
       | some (.role a) => "role:" ++ hexOut a
       | some (.user l d) => "user:" ++ hexOut l ++ "@" ++ hexOut d)
